@@ -1,14 +1,15 @@
 SPECIFICATION Spec
-CONSTANT TerOnModelChange = FALSE
+CONSTANT TerOnModelChange = TRUE
 CONSTANT CifChargeVerbatim = FALSE
 CONSTANT ShapeLevel = 0
 CONSTANT TerChainPadded = TRUE
-CONSTANT BlankSecondChain = FALSE
-CONSTANT MaxAtoms = 3
+CONSTANT BlankSecondChain = TRUE
+CONSTANT MaxAtoms = 4
 INVARIANT InvDomain
 INVARIANT InvReadBack
 INVARIANT InvLayout80
 INVARIANT InvModelBracketing
 INVARIANT InvTerAfterEveryChain
+INVARIANT InvStrictGrammar
 INVARIANT InvFieldIdentity
 CHECK_DEADLOCK FALSE
